@@ -35,3 +35,9 @@ run protocol_fastpath_sleep0    C13 's/await TaskUtils.coro_yield()/await asynci
 run protocol_fastpath_sleep0_10 C10 's/await TaskUtils.coro_yield()/await asyncio.sleep(0)/' lowlevel/api_async/backend/_asyncio/stream/socket.py
 run base64_digest_split         C05 's/data\[:-32\], data\[-32:\]/data[: max(len(data) - 32, 0)], data[-32:]/' serializers/wrapper/base64.py
 run server_client_closing_renamed C14 's/__closing\b/__close_requested/g'        servers/async_tcp.py
+# seventh round: the reason of ECONNABORTED hidden from the traceback (C09 caller-level classification), the blocking receiver's flag renamed (C03),
+# the buffered request receiver catching OSError instead of Exception (C17: ssl errors are OSErrors), the limit error's tail scan bound renamed (C07)
+run tcpclient_abort_from_none   C09 's/raise self.__abort() from exc/raise self.__abort() from None/' clients/tcp.py
+run sync_receiver_flag_renamed  C03 's/_eof_reached/_end_of_stream_seen/g'       lowlevel/api_sync/endpoints/stream.py
+run buffered_receiver_oserror   C17 's/                    except Exception as exc:/                    except (OSError, Exception) as exc:/' lowlevel/api_async/servers/stream.py
+run sync_receiver_flag_renamed09 C09 's/_eof_reached/_end_of_stream_seen/g'      lowlevel/api_sync/endpoints/stream.py
